@@ -39,8 +39,13 @@ external("codemodder.codemodder.apply_codemods", params={"context": "CodemodExec
          note="runs the codemods (verified for C09/C15); writes project files only, never the report")
 external("codemodder.context.CodemodExecutionContext.compile_results", params={"self": "CodemodExecutionContext", "codemods": "list[BaseCodemod]"},
          returns="Opaque", note="verified for C15")
-external("codemodder.codetf.CodeTF.build", params={"cls": "*", "context": "CodemodExecutionContext", "elapsed_ms": "Opaque",
-                                                       "original_args": "Opaque", "results": "Opaque"}, returns="CodeTF")
+external("codemodder.codetf.Run", params=None, returns="Opaque", pure=True, raises_any=True, note="pydantic record of the run header")
+external("posixpath.basename", params=None, returns="str", pure=True)
+external("opaque.absolute", params={"self": "Opaque"}, returns="Opaque", pure=True)
+contract("codemodder.codetf.CodeTF.build", props=["C15"],
+         params={"context": "CodemodExecutionContext", "elapsed_ms": "Opaque", "original_args": "list[str]", "results": "Opaque"},
+         returns="CodeTF", raises_any=True,
+         ensures=[("the report carries exactly the compiled results it was given (same object: same entries, same order)", "result.results == results")])
 
 # ---- write_report: 0 iff the report was written, 2 on any failure ---------------------------------------------------------
 external("pydantic.main.BaseModel.model_dump_json", params={"self": "CodeTF", "exclude_none": "bool"}, returns="str", raises_any=True, pure=True,
